@@ -122,7 +122,11 @@ type Scenario struct {
 	Name   string
 	Prop   string
 	Weight int
-	Gen    func(r *Rng, tier string, seed uint64) interface{}
+	// Every > 0: the scenario is not drawn at random but runs for every seed
+	// with seed % Every == 0 (a fixed share of the seeds: expensive
+	// scenarios that must take part in every check, also in the quick tier)
+	Every int
+	Gen   func(r *Rng, tier string, seed uint64) interface{}
 	New    func() interface{}
 	Exec   func(w interface{}, x *Exec) *Outcome
 	Shrink func(w interface{}) []interface{}
@@ -431,10 +435,19 @@ func pickScenario(prop string, seed uint64) *Scenario {
 	}
 	tot := 0
 	for _, s := range ss {
+		if s.Every > 0 {
+			if seed%uint64(s.Every) == 0 {
+				return s
+			}
+			continue
+		}
 		tot += s.Weight
 	}
 	k := int(NewRng(seed, "scenario").U64() % uint64(tot))
 	for _, s := range ss {
+		if s.Every > 0 {
+			continue
+		}
 		if k < s.Weight {
 			return s
 		}
